@@ -55,7 +55,11 @@ const char * getCmd(char **begin, char **end, MainOptions& options, std::vector<
       else if (cmdOption(*it, "--color", nullptr))
         options.color = true;
       else if (cmdOption(*it, "--expr", nullptr) || cmdOption(*it, "-e", nullptr))
+      {
+        /* what follows is the expression, also when it begins with a minus sign */
         options.doexp = true;
+        cmd = true;
+      }
       else if (cmdOption(*it, "--out", &options.file_sout))
         continue;
       else
